@@ -112,6 +112,24 @@ def interp_shard(tier):
 
 def isi_shard(T, tier):
     tally = Tally()
+    # exactly one spike train, in every layout that holds one: (T,), (T,1) time-first, (1,T) time-last (incl. the empty train)
+    for bits in itertools.product((0, 1), repeat=T):
+        times = [float(i) for i, v in enumerate(bits) if v]
+        exp = [b - a for a, b in zip(times, times[1:])]
+        for label, arg, tf in (("(T,)", torch.tensor(bits, dtype=torch.bool), True), ("(T,1)", torch.tensor(bits, dtype=torch.bool).reshape(T, 1), True),
+                               ("(1,T)", torch.tensor(bits, dtype=torch.bool).reshape(1, T), False)):
+            tally.add("evaluations")
+            case = {"T": T, "dt": 1.0, "single_train": list(bits), "layout": label, "time_first": tf}
+            try:
+                out = inferno.isi(arg, 1.0, time_first=tf)
+            except Exception as ex:
+                tally.violation(f"isi:single-train:exception:{type(ex).__name__}", case, f"isi raised {ex!r}", None, repr(ex))
+                continue
+            got = [v for v in out.reshape(-1).tolist() if v == v]
+            if out.numel() != len(exp) or got != exp:
+                tally.violation("isi:single-train", case, f"isi {out.reshape(-1).tolist()} (shape {tuple(out.shape)}), intervals {exp}", exp, out.reshape(-1).tolist())
+            if len(times) >= 2:
+                tally.mark("nontrivial", ("isi-single", bits, label))
     for dt in (1.0, 0.5):
         for bits in itertools.product((0, 1), repeat=2 * T):
             a, b = bits[:T], bits[T:]
@@ -227,6 +245,19 @@ def vp_shard(tier):
                         tally.violation("vp:input-mutated", {"t0": a, "t1": b, "cost": "inf" if c == float("inf") else c},
                                         f"the call changed the caller's spike-time vector {KEEP[z].tolist()} to {TT[z].tolist()}", KEEP[z].tolist(), TT[z].tolist())
                         TT[z] = KEEP[z].clone()
+    # integer-typed spike times (e.g. indices from torch.nonzero) give the same distances as float times, also for fractional costs
+    for c in (0.25, 1.0):
+        for a in trains:
+            for b in trains:
+                tally.add("evaluations")
+                try:
+                    d = inferno.victor_purpura_pair_dist(torch.tensor([int(v) for v in a], dtype=torch.int64), torch.tensor([int(v) for v in b], dtype=torch.int64), c)
+                    x = float(d.reshape(-1)[0])
+                except Exception as ex:
+                    tally.violation(f"vp:int-times:exception:{type(ex).__name__}", {"t0": a, "t1": b, "cost": c}, repr(ex))
+                    continue
+                if abs(x - D[(c, a, b)]) > 1e-6:
+                    tally.violation("vp:int-times", {"t0": a, "t1": b, "cost": c}, f"int64 spike times give {x}, float times {D[(c, a, b)]}", D[(c, a, b)], x)
     # a tensor of costs (including both documented limits 0 and inf) agrees with the scalar calls
     ct = torch.tensor(list(costs))
     for a in trains:
